@@ -94,6 +94,17 @@ func init() {
 	I[rtPkg+"CancelCtxAt"] = func(ex *Exec, a []Value) Value {
 		return &IfaceV{V: &CtxV{Name: "ctx", Cancel: a[0].(*Term)}}
 	}
+	I[rtPkg+"CancelCtxEvent"] = func(ex *Exec, a []Value) Value {
+		// concurrent harnesses: a context that the environment may cancel at any moment (or never)
+		name := a[0].(string)
+		ctx := &CtxV{Name: name, CancelEvent: true}
+		if ex.conc == nil {
+			ex.conc = &ConcState{mode: "setup", threads: []*ThreadSpec{nil}, writers: map[string]map[int]bool{}, cands: map[string][]refCand{},
+				blockedV: map[string]*Term{}, refIDs: map[string]int{"nil": 0}, refVals: map[string]Value{}, goParent: map[int][2]int{}}
+		}
+		ex.conc.threads = append(ex.conc.threads, &ThreadSpec{Name: "env:cancel:" + name, EnvCancel: name})
+		return &IfaceV{V: ctx}
+	}
 	I[rtPkg+"TimeAt"] = func(ex *Exec, a []Value) Value { return ex.timeValue(a[0].(*Term)) }
 	I[rtPkg+"Offer"] = func(ex *Exec, a []Value) Value {
 		var ch *ChanV
@@ -623,6 +634,17 @@ func (ex *Exec) ctxMethod(c *CtxV, name string, args []Value) Value {
 		return &IfaceV{}
 	case "Err":
 		for p := c; p != nil; p = p.Parent {
+			if p.CancelEvent {
+				if ex.conc.active() && (ex.conc.mode == "thread" || ex.conc.mode == "final") {
+					k := ex.ctl.Choose(2, func(int) bool { return true })
+					if k == 0 {
+						ex.addEvent(&Event{Kind: "ctxerr", Loc: "ctx:" + p.Name, Aux: "cancelled"})
+						return ex.newError("context canceled")
+					}
+					ex.addEvent(&Event{Kind: "ctxerr", Loc: "ctx:" + p.Name, Aux: "live"})
+				}
+				return &IfaceV{}
+			}
 			if p.Cancel != nil {
 				now := ex.clock
 				if now == nil {
@@ -638,6 +660,12 @@ func (ex *Exec) ctxMethod(c *CtxV, name string, args []Value) Value {
 		return &IfaceV{}
 	case "Done":
 		for p := c; p != nil; p = p.Parent {
+			if p.CancelEvent {
+				if p.DoneCh == nil {
+					p.DoneCh = &ChanV{ID: ex.freshID(), Label: "ctx.Done(" + p.Name + ")", Ctx: p}
+				}
+				return p.DoneCh
+			}
 			if p.Cancel != nil {
 				if p.DoneCh == nil {
 					ex.nextObj++
